@@ -10,10 +10,13 @@ def claim(pid, text, note, technique):
 claim("C13",
       "Lean 4 theorems about a hand-written model of path.rs (resolve/normalize: never above root, idempotent, "
       "absolute/relative spec, base file name irrelevant), tied to the code by an exhaustive differential run of the "
-      "model against path::resolve/normalize through a cfg hook, plus an independent reference-resolver oracle on the implementation.",
-      "Trusted: Lean kernel; axioms ⊆ {propext, Classical.choice, Quot.sound}; the hand-written model (tied by exhaustive "
-      "correspondence up to 4 segments); harness codec; python reference resolver. Group-level linking is exercised by the oracle only.",
-      "Lean 4 proof over model + exhaustive model/implementation correspondence")
+      "model against path::resolve/normalize through a cfg hook, plus an independent reference-resolver oracle on the implementation. lookup_order (GE/Thm/C13Link.lean): over the "
+      "model of the lookup table the emitted code builds (GE/Model/Link.lean: Object.assign({}, G[p1]._, …, H); delete S[\"\"]), a <template is> finds a local definition first, otherwise "
+      "the definition in the LAST import whose target is registered and defines the name, never the main template - any files, any import list, any name; tied by corr:link to what the "
+      "real compiler + runtime instantiate on generated multi-file groups.",
+      "Trusted: Lean kernel; axioms ⊆ {propext, Classical.choice, Quot.sound}; the hand-written models (path: exhaustive correspondence up to 4 segments; link: generated groups); "
+      "harness codec; python reference resolver; JavaScript objects modelled as association lists. Dependency queries and insertion-order independence are exercised by the oracle only.",
+      "Lean 4 proof over models (path resolution; template lookup order) + exhaustive / generated model-implementation correspondence + multi-file oracle")
 
 claim("C12",
       "Lean 4 theorem decode_genLitStr: for every string, ECMAScript (strict and sloppy; spec written from ECMA-262) decodes the literal "
@@ -123,15 +126,21 @@ claim("C08",
       "included, are exactly the input's — nothing merged, split, dropped, duplicated or reordered — whitespace and comments aside; convCls_marks / qualLoop_marks + "
       "selMarks_flat / ruleMarks_flat: the whitespace written in selector context is exactly the collapse of the input's (leading/trailing dropped, every inner run kept as "
       "one, none invented) at every nesting depth of selector functions, so descendant combinators survive; calc_keeps_space_*: whitespace next to + / - in calc() is written. "
-      "Model tied to the implementation token-by-token. Spelling-sensitive values are judged by the oracle retokenise(output) == expected_rewrite(tokenise(input)).",
-      CSS_TRUST + "At-rule dispatch and the separator table are covered by correspondence + oracle only.",
-      "Lean 4 proof (token-kind preservation and whitespace collapse per rule, any nesting) + model/implementation token-stream correspondence + re-tokenisation oracle")
+      "Model tied to the implementation token-by-token. Whole stylesheet (GE/Thm/C17Sheet.lean, C08Sheet.lean; no import sign): sheet_partition - the token kinds of both outputs of the model's transform are exactly those of a "
+      "fuel-free, token-by-token reading of the input (rule loop, at-rule dispatch: rule list / declaration block / `;`, any nesting of rule-bearing at-rules), and the fuel of the model's "
+      "loop is never exhausted; sheet_marks - without host conversion the token / white-space sequence of the whole normal output is the reading goM: descendant combinators survive in "
+      "every rule nested in rule-bearing at-rules. Spelling-sensitive values are judged by the oracle retokenise(output) == expected_rewrite(tokenise(input)).",
+      CSS_TRUST + "The separator table (adjacent tokens re-tokenise apart) is covered by correspondence + oracle only; sheets with an import sign are outside the whole-sheet theorems.",
+      "Lean 4 proof (token-kind preservation and whitespace collapse per rule and over the whole sheet: rule loop + at-rule dispatch, any nesting) + model/implementation token-stream correspondence + re-tokenisation oracle")
 claim("C09",
       "PARTIAL proof. Lean 4 theorems rule_rewrite_exact / convCls_wrote / convRpx_wrote: every identifier of a rule is written exactly once, in order, and is replaced by "
       "<prefix>--<name> exactly when it immediately follows `.` in selector context (any depth of selector functions and prelude blocks), never in value context; "
-      "no_prefix_no_change, class_prefixed_once. Oracle: set of rewritten identifiers == identifiers after `.` in selector context; sign comments exactly there.",
-      CSS_TRUST + "That every nested rule reaches the rule function (at-rule dispatch) is covered by correspondence + oracle only.",
-      "Lean 4 proof (identifier-rewrite exactness by structural recursion over token trees) + correspondence + oracle")
+      "no_prefix_no_change, class_prefixed_once. Whole stylesheet (GE/Thm/C09Sheet.lean, no import sign): sheet_idents - the identifiers of both outputs of the model's transform are "
+      "exactly those of the fuel-free reading goI: class positions in style-rule selectors and in the bracketed / functional blocks of at-rule preludes, at any depth, in every rule nested "
+      "inside rule-bearing at-rules; at-keywords, loose prelude identifiers, declaration blocks and calc() untouched. Oracle: set of rewritten identifiers == identifiers after `.` in "
+      "selector context; sign comments exactly there.",
+      CSS_TRUST + "Sheets with an import sign are outside the whole-sheet theorem; sign comments are covered per rule and by the oracle.",
+      "Lean 4 proof (identifier-rewrite exactness by structural recursion over token trees, per rule and over the whole sheet) + correspondence + oracle")
 claim("C10",
       "PARTIAL proof. Lean 4 theorems block_numbers_exact / convRpx_nums / convCls_nums (structural recursion over the token tree): the numeric tokens written are the input's, "
       "in order and bit for bit, except that exactly the dimensions whose unit is rpx are replaced by a vw dimension carrying rpxConvert(value, ratio) — in declarations, "
@@ -144,15 +153,19 @@ claim("C17",
       "PARTIAL proof. Lean 4 theorems about one rule: host_rule_moves (a pure :host{} writes nothing to the normal output, no warning, and exactly chain…{ selector { "
       "block } }… with balanced braces to the low output, the block transformed by the ordinary declaration function), host_combination_dropped (neither output changes, "
       "one warning), host_off_generic / not_host_generic / generic_keeps_low (everything else is the generic rule and never touches the low output). Oracle: each "
-      "input rule appears exactly once over both outputs, order kept.",
-      CSS_TRUST + "The rule loop (every rule visited once, in order) is covered by correspondence + oracle only.",
-      "Lean 4 proof (per-rule partition theorems) + correspondence on both outputs + partition oracle")
+      "input rule appears exactly once over both outputs, order kept. Whole stylesheet (GE/Thm/C17Sheet.lean, no import sign): sheet_partition - the token kinds of the normal and of "
+      "the low-priority output of the model's transform are exactly those the fuel-free reading `go` assigns: every rule once, non-host rules in the normal output in source order, each "
+      ":host{} in the low output inside the chain of the WRITTEN preludes of its enclosing rule-bearing at-rules, :host combinations in neither; host_off_low_empty.",
+      CSS_TRUST + "Sheets with an import sign are outside the whole-sheet theorem; token payloads are covered per rule (C09 / C10).",
+      "Lean 4 proof (per-rule partition theorems + the rule loop / at-rule dispatch over the whole sheet by induction on fuel against a fuel-free specification) + correspondence on both outputs + partition oracle")
 claim("C18",
       "PARTIAL proof. Lean 4 theorems decode_encode (percent-decoding the placeholder of any byte string returns it), encoded_alphabet and encoded_has_no_comment_end "
       "(the encoded path cannot end the comment); the unreserved-byte table is the model's and agrees with urlencoding on all 256 bytes via correspondence. Oracle: "
-      "placeholder position, recoverable path, equivalent @layer/@supports/@media wrappers, late-import warning, pass-through without a sign.",
-      CSS_TRUST + "Wrapper construction (importRule) is covered by correspondence + oracle only.",
-      "Lean 4 proof (encode/decode round trip for all byte strings) + correspondence + oracle")
+      "placeholder position, recoverable path, equivalent @layer/@supports/@media wrappers, late-import warning, pass-through without a sign. import_balanced (GE/Thm/C18Wrap.lean): "
+      "whatever an accepted import's conditions contain, what the model's importRule writes (wrappers, placeholder, closers) is balanced in { / }: it never closes below its starting depth "
+      "and ends at it, for every token tree.",
+      CSS_TRUST + "Which prelude goes into which wrapper is covered by correspondence + oracle only; a rejected (malformed) import leaves already-opened wrappers unclosed (DESIGN §13).",
+      "Lean 4 proof (encode/decode round trip for all byte strings; wrapper balance for all token trees) + correspondence + oracle")
 claim("C19",
       "PARTIAL proof. Lean 4 theorems about the output writer model: utf16_len_invariant and dst_col_exact (the generated column recorded for a token is the UTF-16 length of "
       "everything written before it, for every write sequence), entries_nondecreasing; output_shape_ok re-checks each run that StylesheetOutputWriter still has the "
@@ -173,7 +186,8 @@ claim("C11",
       "Lean 4 proof (denotational correctness of the emitted path expression, by structural recursion) + get oracle under the real runtime")
 
 claim("C01",
-      "Lean 4 theorems (partial): rules_progress - over the model of the stylesheet transformer's rule loop (the one compared with the real transformer on every generated sheet), every iteration hands a strictly shorter token list to the next (each rule parser returns a suffix of its input and consumes its first token: no rewinding rule, the mechanism of a hang with unbounded allocation); PARTIAL proof. Lean 4 theorems for the two places where totality is arithmetic or loop progress: scanRadix_spec / scanDec_spec (the oct / hex / dec literal scanners never "
+      "Lean 4 theorems (partial): rules_fuel_sufficient / rules_sheet (GE/Thm/C17Sheet.lean) - the fuel of the model's stylesheet rule loop is never exhausted: for every token tree the loop "
+      "meets a fuel-free specification; rules_progress - over the model of the stylesheet transformer's rule loop (the one compared with the real transformer on every generated sheet), every iteration hands a strictly shorter token list to the next (each rule parser returns a suffix of its input and consumes its first token: no rewinding rule, the mechanism of a hang with unbounded allocation); PARTIAL proof. Lean 4 theorems for the two places where totality is arithmetic or loop progress: scanRadix_spec / scanDec_spec (the oct / hex / dec literal scanners never "
       "overflow: they return the exact integer up to i64::MAX and the float branch beyond, for digit strings of any length) and iter_progress / loop_terminates (every iteration of "
       "the attribute-recovery loop consumes input; the stop test is re-extracted from the source each run). Everything else is observation: every input runs through add_tmpl, "
       "all artefacts, stringify + re-parse and the stylesheet transformer in isolated worker processes with an address-space limit and time budgets (a dead or late worker names "
@@ -221,9 +235,11 @@ claim("C16",
 claim("C02",
       "PARTIAL proof. Lean 4 theorems: every allocated identifier is an IdentifierName, never a reserved word / relied-upon global, never a preserved A–Z name, and distinct "
       "counters give distinct names (tables VAR_NAME_* and the reserved list re-extracted from the source each run); every string literal decodes (C12); every value "
-      "expression, hoisted statement and if-selector statement derives its intended tree in the ECMAScript grammar (gen_derives, if_selector_derives). Models tied by "
+      "expression, hoisted statement and if-selector statement derives its intended tree in the ECMAScript grammar (gen_derives, if_selector_derives). args_cover (GE/Thm/C02Args.lean): every callback T E B F S J that the "
+      "statement of a child node invokes is a parameter of the generated children function it stands in, for every list of child kinds, with or without slot values (tables of "
+      "to_proc_gen_function_args regenerated from the source each run; which callback each kind invokes tied by corr:child-args). Models tied by "
       "exhaustive identifier correspondence and byte-equality streams. Oracle: V8 parses (sloppy+strict) every artefact of generated, hostile-named, mutated and large templates.",
-      "Trusted: Lean kernel; axioms ⊆ {propext, Classical.choice, Quot.sound}; Spec/JsLex, JsGrammar, JsString; extractors; V8. The statement skeleton of the tag-level "
+      "Trusted: Lean kernel; axioms ⊆ {propext, Classical.choice, Quot.sound}; Spec/JsLex, JsGrammar, JsString; extractors; V8. The rest of the statement skeleton of the tag-level "
       "generator and the final step derivable⇒parsable are covered by the oracle only.",
       "Lean 4 proof (identifiers, literals, expressions) + V8 syntax oracle over all artefacts")
 
